@@ -26,10 +26,6 @@ Proof.
   apply andb_prop in H as [H1 H2]. apply Bool.eqb_prop in H1. f_equal; auto.
 Qed.
 
-Definition forall_bool (p : bool -> bool) : bool := p true && p false.
-Lemma forall_bool_spec p : forall_bool p = true -> forall b, p b = true.
-Proof. unfold forall_bool. intros H b. apply andb_prop in H as [H1 H2]. destruct b; assumption. Qed.
-
 (* ---------- a single bit through a mask ---------- *)
 Lemma land_pow2 v p : N.land v (2 ^ p) = if N.testbit v p then 2 ^ p else 0.
 Proof.
